@@ -34,7 +34,7 @@ META = {
     "every one of 84 expression positions filled with 13 nested filter/test expressions whose names occur once per template, "
     "every number spelling of <= 3 (4) fragments over ASCII and non-ASCII digits and number punctuation in 8 literal positions, and "
     "47 empty / minimal statements alone, after six kinds of (conditional) extends and inside 16 container bodies (thorough: two "
-    "container levels), is loaded through Environment.from_string, Environment.parse and Environment.compile(raw=True) "
+    "container levels), and 35 block-like tags with their modifiers x 24 minimal bodies x 8 surroundings, is loaded through Environment.from_string, Environment.parse and Environment.compile(raw=True) "
     "+ Python compile() under nine configurations (default, ASP-style shared-prefix delimiters, ${ } variables, line "
     "statements + line comments, trim+lstrip, keep_trailing_newline, async, sandboxed, i18n+do+loopcontrols+debug).",
     "note": "Bounds: quick k=4 default / k=3 other configs, keyword alphabet <=2 (framed <=2), d<=1 on the 300 shortest seeds "
@@ -42,7 +42,8 @@ META = {
     "<=3 (framed <=3 in default/asp/line/ext, <=2 elsewhere), d<=1 on all seeds (300 shortest in the other configs), d<=2 on the 60 (15) shortest seeds, all pairs.  "
     "compile(raw)+compile() is skipped only for core-alphabet strings of the maximal length that from_string already "
     "loaded or Environment.parse already rejected (same parse/generate/compile steps); at k=5 (thorough, default config) the "
-    "maximal length goes through from_string alone; async and sandbox use k=3 in the thorough tier too.  Out of scope by construction: "
+    "maximal length is enumerated for tuples that contain a tag opener only (9.95M of 24.3M; strings without an opener are complete "
+    "to length 4) and goes through from_string alone; async and sandbox use k=3 in the thorough tier too.  Out of scope by construction: "
     "integer literals beyond the int-to-str digit limit and nesting beyond the recursion limit (both need inputs far "
     "larger than any bound here).  'Renderable' is checked as 'a Template object whose module code compiled'; "
     "rendering belongs to other properties.",
@@ -432,11 +433,22 @@ def shard_strings(arg, p):
         if len(p.samples) < 2 and len(frags) == k:
             p.sample({"space": tag, "config": chk.cfg, "fragments": list(frags)}, cap=2)
 
+    # Declared bound for k >= 5 over the core alphabet: tuples of the maximal length are enumerated only
+    # when they contain a tag opener; strings without one are enumerated up to length k - 1.
+    openers = {translate_fragment(ci, d) for d in ("{{", "{%", "{#")}
+    restrict = which == 1 and k >= 5
+
     def rec(frags):
         run(frags)
         if len(frags) < k:
-            for f in A:
-                rec(frags + (f,))
+            last = len(frags) == k - 1
+            if restrict and last and not openers.intersection(frags):
+                for f in A:
+                    if f in openers:
+                        rec(frags + (f,))
+            else:
+                for f in A:
+                    rec(frags + (f,))
 
     def short(frags):
         run(frags)
@@ -890,12 +902,51 @@ EMPTY_CONTAINERS = [
 ]
 
 
-def empty_cases(two_levels):
+# block-like tags with their modifiers x minimal bodies
+MOD_TAGS = [
+    ("{% block x %}", "{% endblock %}"), ("{% block x required %}", "{% endblock %}"), ("{% block x scoped %}", "{% endblock x %}"),
+    ("{% block x scoped required %}", "{% endblock %}"), ("{% block x required scoped %}", "{% endblock %}"),
+    ("{% for i in s %}", "{% endfor %}"), ("{% for i in s recursive %}", "{% endfor %}"), ("{% for i in s if i %}", "{% endfor %}"),
+    ("{% for i in s if i recursive %}", "{% endfor %}"), ("{% for i, j in s %}", "{% else %}e{% endfor %}"),
+    ("{% for i in s %}a{% else %}", "{% endfor %}"),
+    ("{% if c %}", "{% endif %}"), ("{% if c %}a{% elif d %}", "{% else %}e{% endif %}"), ("{% if c %}a{% else %}", "{% endif %}"),
+    ("{% macro m() %}", "{% endmacro %}"), ("{% macro m(a=1) %}", "{% endmacro m %}"), ("{% macro m(a, b=a) %}", "{% endmacro %}"),
+    ("{% call m() %}", "{% endcall %}"), ("{% call(a, b=1) m(1, k=2) %}", "{% endcall %}"),
+    ("{% set v %}", "{% endset %}"), ("{% set v | upper %}", "{% endset %}"), ("{% set v | replace('a', y) | trim %}", "{% endset %}"),
+    ("{% filter upper %}", "{% endfilter %}"), ("{% filter replace('a', y)|trim %}", "{% endfilter %}"),
+    ("{% with %}", "{% endwith %}"), ("{% with a=1 %}", "{% endwith %}"), ("{% with a=1, b=a %}", "{% endwith %}"),
+    ("{% autoescape true %}", "{% endautoescape %}"), ("{% autoescape e %}", "{% endautoescape %}"),
+    ("{% trans %}", "{% endtrans %}"), ("{% trans trimmed %}", "{% endtrans %}"), ("{% trans notrimmed a=1 %}", "{% endtrans %}"),
+    ("{% trans count=n %}", "{% pluralize %}p{% endtrans %}"), ("{% trans count=n %}s{% pluralize count %}", "{% endtrans %}"),
+    ("{% raw %}", "{% endraw %}"),
+]
+MOD_BODIES = ["", " ", "\n  \n", "{# c #}", " {# c #} ", "text", "{{ y }}", " {{ y }} ", "{{ y }}{{ z }}", "{% set z = 1 %}",
+              "{% block n %}{% endblock %}", "{% block n required %}{% endblock %}", "{% if y %}t{% endif %}", "{% include 'a' %}",
+              "{% print %}", "{% for q in y %}{% endfor %}", "{% raw %}{% endraw %}", "{{ y|upper }}", "{{ super() }}", "{{ caller() }}",
+              "{{ loop.index }}", "%", "%(y)s", "{{ y }}%{{ y }}"]
+MOD_OUTER = ["S", "{% extends 'a' %}S", "{% if x %}{% extends 'a' %}{% endif %}S", "{% block o %}S{% endblock %}",
+             "{% extends 'a' %}{% block o %}S{% endblock %}", "{% macro w() %}S{% endmacro %}", "{% for u in t %}S{% endfor %}",
+             "{% call w() %}S{% endcall %}"]
+
+
+def modifier_cases(level=1):
     out = []
+    for outer in (MOD_OUTER if level else MOD_OUTER[:3]):
+        for o, c in MOD_TAGS:
+            for b in MOD_BODIES:
+                out.append(outer.replace("S", o + b + c))
+    return out
+
+
+def empty_cases(level):
+    """level 2: two container levels (thorough); 1: one level, everything
+    (quick, default configuration); 0: one level, the first three surroundings /
+    extends prefixes only (quick, other configurations)."""
+    out = modifier_cases(level)
     conts = list(EMPTY_CONTAINERS)
-    if two_levels:
+    if level >= 2:
         conts += [a.replace("S", b) for a in EMPTY_CONTAINERS[1:14] for b in EMPTY_CONTAINERS[1:14]]
-    for pre in EMPTY_PREFIXES:
+    for pre in (EMPTY_PREFIXES if level else EMPTY_PREFIXES[:3]):
         for c in conts:
             for st in EMPTY_STATEMENTS:
                 out.append(pre + c.replace("S", st))
@@ -972,7 +1023,7 @@ def run(ctx: core.Ctx):
     bounds["k_number_spellings"] = {CONFIGS[ci][0]: kn[ci] for ci in kn}
     bounds["number_alphabet"] = len(NUM_ALPHABET)
     for ci in range(len(CONFIGS)):
-        two = not q  # two container levels in the thorough tier only
+        two = 2 if not q else (1 if ci == 0 else 0)
         ncases = len(empty_cases(two))
         parts = max(1, ncases // 3000)
         jobs += [("empty", (ci, two, part, parts)) for part in range(parts)]
@@ -989,7 +1040,12 @@ def run(ctx: core.Ctx):
             k = k_oth - 1  # same lexer and parser as the default configuration; only code generation differs
         bounds.setdefault("k_core_alphabet", {})[CONFIGS[ci][0]] = k
         shards += string_shards(ci, 1, k)
-        tuples += string_count(len(alphabet(ci, 1)), k)
+        n1 = len(alphabet(ci, 1))
+        tuples += string_count(n1, k)
+        if k >= 5:
+            # maximal-length tuples without a tag opener are outside the declared bound
+            tuples -= (n1 - 3) ** k
+            bounds["k5_restricted_to_tuples_with_a_tag_opener"] = n1 ** k - (n1 - 3) ** k
         shards += string_shards(ci, 2, k2)
         tuples += string_count(len(alphabet(ci, 2)), k2)
         # framed keyword strings: full bound in the configurations that change the tag syntax, one less elsewhere
